@@ -38,27 +38,19 @@ theorem c17_corruption_callers : Gen.OamWriters.corruptionCallers =
     ["Corrupt->readWriteCorruption", "Corrupt->readCorruption", "Corrupt->doubleWriteCorruption", "Corrupt->writeCorruption"] := by decide
 
 /-- every call of the OAM API from the CPU, the PPU, the mapper: in particular `disable` calls ExitMode2 and
-    only `enable` and the two mode-2 entries of EndMachineCycle call EnterMode2 -/
+    only `enable` and the two mode-2 entries of EndMachineCycle call EnterMode2.  For the calls that cannot alter
+    OAM outside the window (PPURead, Read, ReadDMA, TriggerWriteCorruption) only the calling PACKAGE is recorded. -/
 def expectedExternalCalls : List String := [
   "cpu.ExecuteMachineCycle->Corrupt",
-  "cpu.decBC->TriggerWriteCorruption",
-  "cpu.decDE->TriggerWriteCorruption",
-  "cpu.decHL->TriggerWriteCorruption",
-  "cpu.decSP->TriggerWriteCorruption",
-  "cpu.incBC->TriggerWriteCorruption",
-  "cpu.incDE->TriggerWriteCorruption",
-  "cpu.incHL->TriggerWriteCorruption",
-  "cpu.incSP->TriggerWriteCorruption",
-  "cpu.popF->TriggerWriteCorruption",
+  "cpu.*->TriggerWriteCorruption",
   "ppu.EndMachineCycle->ExitMode2",
   "ppu.EndMachineCycle->EnterMode2",
-  "ppu.checkOverlappingSprite->PPURead",
+  "ppu.*->PPURead",
   "ppu.enable->EnterMode2",
   "ppu.disable->ExitMode2",
-  "ppu.renderPixel->PPURead",
   "memory.EndMachineCycle->TickDMA",
-  "memory.Read->Read",
-  "memory.Read->ReadDMA",
+  "memory.*->Read",
+  "memory.*->ReadDMA",
   "memory.Write->Write",
   "memory.Write->WriteDMA"
 ]
